@@ -123,3 +123,8 @@ def codec_check(prop, part, level, rule, assumptions=(), gens=("v2", "root"), de
 
 C01 = codec_check("C01", "C01", "model_checking",
     rule="bounded-exhaustive enumeration: every wrapper record of the schema universe (one per field type of the grammar x {required, optional, defaulted} + include chains + unions) x every value with at most one deviation from the base value over the full per-type alphabets (thorough: also every pair of field deviations over the reduced alphabets) x 5 wire formats is encoded and decoded by the real generated bindings; states = distinct values, transitions = encode/decode calls; a class is (outcome kind, format)")
+
+C03 = codec_check("C03", "C03", "model_checking",
+    rule="differential check against an independent reference codec pair (mc/ref/refjson, mc/ref/refror2) over the C01 case space: (lib-to-ref) every library encoding must parse under the strict reference parser of its format/context and denote the same abstract value; (ref-to-lib) the reference encoding of every value, and for the reduced alphabets every document variant (key permutations, unknown fields, whitespace, alternative escapes), must be accepted by the library reader and yield the value; states = values, transitions = encode or decode calls; a class is (direction, outcome, format, variant family)",
+    assumptions=["the reference codecs are my reading of the Rest.li 2.0 wire rules: keys are escaped like strings; bytes/fixed are strings of code points <= U+00FF in JSON and ROR2; a null union is JSON null / the empty map in ROR2",
+                 "request/response envelopes are checked by the wire-level checks, not here"])
